@@ -225,7 +225,11 @@ reg("hstack", lambda rng, v, dt: [[rnd(rng, s, dt) for s in [[(3,), (2,)], [(2, 
 reg("vstack", lambda rng, v, dt: [[rnd(rng, s, dt) for s in [[(3,), (3,)], [(2, 3), (1, 3)], [(2, 2), (2, 2)], [(1,), (1,)]][v % 4]]], dt="fc", ref=np.vstack)
 reg("unstack", lambda rng, v, dt: [rnd(rng, [(3,), (2, 3), (4, 4), (2, 2, 2)][v % 4], dt)], dt="fc", tensor_out=False,
     canon=lambda r: [_tonp(x) for x in r], ref=lambda x: list(x))
-reg("take", lambda rng, v, dt: [rnd(rng, [(5,), (3, 4), (3, 4), (2, 3, 2)][v % 4], dt), Raw([[0, 2], [1, 0, 1], [3, 0], [1]][v % 4])] + ([] if v % 4 == 0 else [Raw([None, 0, 1, -2][v % 4])]),
+_TAKE = [((5,), [0, 2], None), ((3, 4), [1, 0, 1], 0), ((3, 4), [3, 0], 1), ((2, 3, 2), [1], -2),
+         # negative indices along leading / non-leading / negative axes of non-square arrays, repeated and 2-d index lists
+         ((2, 5), [-1], 1), ((2, 5), [-1, 0, -5], -1), ((4, 2), [-1, -4], 0), ((2, 3, 4), [-1, 1], 2), ((2, 3, 4), [-3], 1),
+         ((5, 2), [-2, -1], -1), ((3, 4), [[0, -1], [2, -4]], 1), ((6,), [-6, -1], None), ((2, 3), [-1, -6], None)]
+reg("take", lambda rng, v, dt: [rnd(rng, _TAKE[v % len(_TAKE)][0], dt), Raw(_TAKE[v % len(_TAKE)][1])] + ([] if _TAKE[v % len(_TAKE)][2] is None else [Raw(_TAKE[v % len(_TAKE)][2])]),
     call=lambda m, x, i, ax=None: m.take(x, i.v) if ax is None else m.take(x, i.v, axis=ax.v), dt="fc", grad=True,
     ref=lambda x, i, ax=None: np.take(x, i.v) if ax is None else np.take(x, i.v, axis=ax.v))
 reg("gather", lambda rng, v, dt: [rnd(rng, [(5,), (3, 4), (4,), (6,)][v % 4], dt), Raw([[0, 2], [1, 0, 1], [3, 0], [1]][v % 4])],
@@ -417,7 +421,7 @@ def strategy(tier):
 
     def one(name):
         dts = [d for k in T[name]["dt"] for d in DT[k]]
-        return st.fixed_dictionaries({"fn": st.just(name), "v": st.integers(0, 7), "dt": st.sampled_from(dts), "seed": st.integers(0, 2 ** 31)})
+        return st.fixed_dictionaries({"fn": st.just(name), "v": st.integers(0, len(_TAKE) - 1 if name == "take" else 7), "dt": st.sampled_from(dts), "seed": st.integers(0, 2 ** 31)})
     return st.sampled_from(names).flatmap(one)
 
 
@@ -426,6 +430,8 @@ def enumerate_cases(tier):
     for name in sorted(T):
         for v in (1, 6):
             yield {"fn": name, "v": v, "dt": DT[T[name]["dt"][0]][0], "seed": 1 + v}
+    for v in range(len(_TAKE)):     # index / axis conventions of take: every listed combination
+        yield {"fn": "take", "v": v, "dt": DT[T["take"]["dt"][0]][0], "seed": 3 + v}
 
 
 # ------------------------------------------------------------------------------------------------ machinery
